@@ -10,7 +10,7 @@ import (
 
 func init() {
 	register("C02", propMeta{
-		Explanation: "E-OWN + E-LOCK + E-PROV + E-GUARD on the broker's rendezvous. O-1 channel privacy: every store to Snowflake.{offerChannel,answerChannel,id} and ProxyPoll.{offerChannel,id} targets a not-yet-published object of the storing function and channel fields only ever receive a fresh MakeChan. O-2 unique holder: the heaps, the id map and Snowflake.index are touched only under snowflakeLock (must-lockset, heap callbacks included) and the heap slices only inside the heap.Interface methods. O-3 same match end to end: in ClientOffers the snowflake returned by matchSnowflake is the base of the channel the offer is sent on, of the channel the answer is received from and of the id deregistered; the answer returned is the value received; the offer carries the request's SDP and the validated fingerprint. In Broker the per-poll goroutine forwards from the snowflake registered for *that* poll (request passed as a parameter, snowflake a per-iteration value built from request.id). ProxyAnswers sends the decoded answer on the answerChannel of the map entry looked up with the decoded id. ProxyPolls returns the offer received for the decoded session id and derives the relay URL from that offer's fingerprint. O-4: registration key = own id. O-5: one matching path for POST/legacy/AMP. O-6: matching is reachable only through the err == nil edges of hex decoding, fingerprint construction and bridge lookup. With private channels and a unique holder the only values that can travel between a client handler and a proxy handler are that client's offer and that proxy's answer; each obligation is also necessary (break it and some history cross-wires). Added after the second seeding round: O-6c every JSON record decoded inside a loop goes into a record created (or wholly overwritten) in that iteration; O-7/C14 the request body is read only through MaxBytesReader (C14's obligation, evaluated here for the broker handlers). Added after the third seeding round: O-9 (no package-level scratch state on the match path) covers method calls on package-level objects, for example a shared response buffer whose bytes are handed to the poll; O-6b GetBridgeInfo succeeds only with the entry looked up for its own parameter.",
+		Explanation: "E-OWN + E-LOCK + E-PROV + E-GUARD on the broker's rendezvous. O-1 channel privacy: every store to Snowflake.{offerChannel,answerChannel,id} and ProxyPoll.{offerChannel,id} targets a not-yet-published object of the storing function and channel fields only ever receive a fresh MakeChan. O-2 unique holder: the heaps, the id map and Snowflake.index are touched only under snowflakeLock (must-lockset, heap callbacks included) and the heap slices only inside the heap.Interface methods. O-3 same match end to end: in ClientOffers the snowflake returned by matchSnowflake is the base of the channel the offer is sent on, of the channel the answer is received from and of the id deregistered; the answer returned is the value received; the offer carries the request's SDP and the validated fingerprint. In Broker the per-poll goroutine forwards from the snowflake registered for *that* poll (request passed as a parameter, snowflake a per-iteration value built from request.id). ProxyAnswers sends the decoded answer on the answerChannel of the map entry looked up with the decoded id. ProxyPolls returns the offer received for the decoded session id and derives the relay URL from that offer's fingerprint. O-4: registration key = own id. O-5: one matching path for POST/legacy/AMP. O-6: matching is reachable only through the err == nil edges of hex decoding, fingerprint construction and bridge lookup. With private channels and a unique holder the only values that can travel between a client handler and a proxy handler are that client's offer and that proxy's answer; each obligation is also necessary (break it and some history cross-wires). Added after the second seeding round: O-6c every JSON record decoded inside a loop goes into a record created (or wholly overwritten) in that iteration; O-7/C14 the request body is read only through MaxBytesReader (C14's obligation, evaluated here for the broker handlers). Added after the third seeding round: O-9 (no package-level scratch state on the match path) covers method calls on package-level objects, for example a shared response buffer whose bytes are handed to the poll; O-6b GetBridgeInfo succeeds only with the entry looked up for its own parameter. Added after the fourth seeding round: O-1b AddSnowflake returns only the Snowflake it allocated in this call; O-3 a request reaches matchSnowflake at most once per execution (no second chance with the same offer); O-10/C04 the deregistration obligations of C04 for the poll goroutine's timeout branch.",
 		NotDecided:  "byte-for-byte fidelity through JSON (C12), uniqueness of proxy-chosen session ids (outside the quantifier), liveness (C04), container/heap correctness.",
 		Assumptions: []string{"Go channel semantics", "lock identity is (type, field)", "container/heap calls only the heap.Interface methods of the value it is given"},
 	}, runC02)
@@ -63,6 +63,12 @@ func runC02(c *Ctx) {
 	// fills, a package-level buffer or cache (one client's response bytes overwritten by another's)
 	c.checkNoSharedState("O-9 no package-level scratch state on the match path", "broker", broker)
 	c.checkNoSharedState("O-9 no package-level scratch state on the match path", "common/messages", p.FnsIn("common/messages"))
+	// the timeout branch of the poll goroutine hands a claimed snowflake's offer on and deregisters an unclaimed
+	// one, each exactly once (C04's obligation): an offer drained and dropped there leaves the client waiting for
+	// an answer to an offer no proxy ever received
+	c.prefix = "O-10/C04:"
+	c.checkDeregistration(p.Locks())
+	c.prefix = ""
 	// heap slices only inside heap.Interface methods
 	heapT := p.Type("broker", "SnowflakeHeap")
 	if heapT == nil {
@@ -162,6 +168,24 @@ func (c *Ctx) checkClientOffersProvenance() {
 	if co == nil || match == nil {
 		c.undecided(rule, "ClientOffers", "-", "anchor does not resolve")
 		return
+	}
+	// one request claims at most one proxy: no matchSnowflake call can be followed by another (or by itself
+	// round a loop) in the same execution of ClientOffers
+	{
+		var sites []ssa.CallInstruction
+		for _, d := range deepCalls(co, 2, funcFullName(match)) {
+			if ci, ok := d.Top.(ssa.CallInstruction); ok {
+				sites = append(sites, ci)
+			}
+		}
+		for _, a := range sites {
+			for _, b := range sites {
+				if canFollow(a, b) {
+					c.viol(rule, "ClientOffers claims one proxy per request", p.instrPos(b), "after one matchSnowflake call another can execute in the same request (retry loop, second chance): the client's single offer is handed to two proxy polls, and the first proxy, which may still answer, holds an offer whose client has moved on")
+					return
+				}
+			}
+		}
 	}
 	var X *ssa.Call
 	for _, ci := range callsIn(co) {
@@ -288,6 +312,38 @@ func (c *Ctx) checkBrokerLoopProvenance() {
 	if loop == nil || add == nil {
 		c.undecided(rule, "Broker loop", "-", "anchor does not resolve")
 		return
+	}
+	// every poll gets a registration of its own: what AddSnowflake returns is the object it allocated in
+	// this call (an existing entry handed out again is shared by two waiter goroutines: one offer
+	// channel, one heap index, the second waiter never completes)
+	{
+		ruleR := "O-1b one registration per poll"
+		nRet, bad := 0, ""
+		for _, r := range returnsOf(add) {
+			if len(r.Results) != 1 {
+				continue
+			}
+			nRet++
+			var leaves []ssa.Value
+			var walk func(v ssa.Value, d int)
+			walk = func(v ssa.Value, d int) {
+				if ph, ok := v.(*ssa.Phi); ok && d < 6 {
+					for _, e := range ph.Edges {
+						walk(e, d+1)
+					}
+					return
+				}
+				leaves = append(leaves, v)
+			}
+			walk(r.Results[0], 0)
+			for _, lf := range leaves {
+				al, ok := xstrip(lf).(*ssa.Alloc)
+				if !ok || !al.Heap || !belongsTo(al.Parent(), add) {
+					bad = p.instrPos(r)
+				}
+			}
+		}
+		c.check(nRet > 0 && bad == "", ruleR, "AddSnowflake returns the Snowflake allocated by this call", p.Pos(add.Pos()), fmt.Sprintf("%d return(s)", nRet), "AddSnowflake can return an object it did not create in this call (an entry looked up in the map, a pooled record): two polls share one registration ("+bad+")")
 	}
 	// the go statement(s) in the loop
 	n := 0
@@ -798,7 +854,7 @@ func (c *Ctx) checkBridgeLookup() {
 			continue
 		}
 		n++
-		path := reachableWithout(fn, r, found)
+		path := successReachableWithout(fn, r, 1, found)
 		okVal := flows(retVal(r, 0), func(v ssa.Value) bool {
 			e, ok := v.(*ssa.Extract)
 			return ok && e.Tuple == ssa.Value(lk) && e.Index == 0
